@@ -117,7 +117,8 @@ def doc_tags(lang, data):
     return tags
 
 
-FIXED = set()
+FIXED_NOTES = {'KA': 'fixed: property=C10 35cd1c2 KA M.Bytes returned the caller\'s slice after the minifier had edited it in place (late error)'}
+FIXED = set(FIXED_NOTES)
 LIFTED = FIXED | set(filter(None, os.environ.get('VERIF_C10_LIFT', '').split(',')))       # trial runs against a patched tree
 
 
@@ -538,9 +539,9 @@ def run(ctx):
                          'each with every entry point of its language' % (len(SEEDS), '1' if quick else '<= 2 (second operator: truncate, delete, swap, nest)'),
         rule='a case is (entry point, language, option set, precision, input bytes, nesting depth); inputs: TLC-enumerated mutants of the model '
              'documents, repository corpora / benchmarks / test inputs, seeded byte mutations and splices of those, late-error documents, nesting and '
-             'repetition probes to depth %d; non-trivial = the call returned an error or the input is a mutant / probe. Generator exclusions '
-             '(known findings): KA Bytes calls for html/xml/svg inputs that can make the minifier fail (NUL byte; HTML with script, handler, svg, math), '
-             'KB more than 3000 var statements in one document' % depths[-1],
+             'repetition probes to depth %d; non-trivial = the call returned an error or the input is a mutant / probe. Generator exclusion '
+             '(known finding): KB more than 3000 var statements in one document (KA, Bytes calls that can fail, is fixed in /repo 35cd1c2 '
+             'and no longer excluded)' % depths[-1],
         samples=samples,
     ))
     ctx.assumptions += [
@@ -613,6 +614,7 @@ def _regen_known():
     with open(os.path.join(vlib.ROOT, 'known', 'C10.txt'), 'w') as f:
         f.write('# C10 known findings: generated by tools/props/c10.py from known/C10.ndjson; never written at run time\n')
         f.write('\n'.join(lines) + '\n')
+        f.write('\n'.join(FIXED_NOTES[k] for k in sorted(FIXED_NOTES)) + '\n')
     print('kept %d of %d witnesses' % (len(keep), len(rows)))
 
 
